@@ -37,6 +37,20 @@ class CalOp(Op):
         return ys
 
 
+def year_edge_years(rng):
+    """(mode, year) pairs covering a whole weekday cycle of year starts per calendar."""
+    out = []
+    for m in ("d360", "d365", "d366"):
+        base = rng.choice([1996, 2000, -7, 0, 2400, 9995, -2003, 1583]) + rng.randint(0, 6)
+        out += [(m, y) for y in range(base, base + 7)]
+        out += [(m, y) for y in range(-3, 4)]
+    base = 1901 + rng.randint(0, 60)
+    out += [("greg", y) for y in range(base, base + 28)]
+    for c in (0, 1900, 2000, 2100, rng.choice([-400, 400, 1600, 2400, 10000, -100])):
+        out += [("greg", y) for y in range(c - 4, c + 5)]
+    return out
+
+
 def _fmt(t):
     return " ".join(str(int(x)) for x in t)
 
@@ -225,6 +239,16 @@ class Conv(CalOp):
         for m in oracle.MODES:
             for _ in range(n if m == "greg" else n // 3):
                 yield m, gens.any_date(rng, m, rep=self.src)
+        # every tier: the days around EVERY year boundary of a full weekday cycle - 7 consecutive years of each
+        # fixed-length calendar, 28 consecutive Gregorian years plus the windows around century years -
+        # because what a conversion does there depends on (mode, year type, weekday of 1 January) and a
+        # random draw meets a particular combination (say 28 December in the 360-day calendar before a
+        # year starting on a Thursday) too rarely
+        for m, y in year_edge_years(rng):
+            n0 = oracle.dby(m, y)
+            yl = oracle.year_len(m, y)
+            for n in gens.shard_filter(list(range(n0, n0 + 9)) + list(range(n0 + yl - 9, n0 + yl)), self.shard):
+                yield m, self.of_day_num(m, n)
         if tier != "quick":
             # exhaustive: every day of a 400-year Gregorian cycle and of an 8-year window of
             # each fixed-length calendar (weekday cycle = 7 years)
@@ -319,6 +343,13 @@ class TPViews(CalOp):
             m = gens.mode(rng)
             date = gens.any_date(rng, m)
             yield (m,) + tuple(date)
+        reps = {"c": oracle.cal_of_day_num, "o": oracle.ord_of_day_num, "w": oracle.week_of_day_num}
+        for m, y in year_edge_years(rng):
+            n0 = oracle.dby(m, y)
+            yl = oracle.year_len(m, y)
+            for n in gens.shard_filter(list(range(n0, n0 + 5)) + list(range(n0 + yl - 5, n0 + yl)), self.shard):
+                rep = rng.choice("cow")
+                yield (m, rep) + tuple(reps[rep](m, n))
 
     def line(self, a):
         # driver computes the three views of the date
